@@ -69,8 +69,8 @@ def gen():
     if not m:
         raise F.FactError("done(): final comma-group check not recognised")
     out.append("(* done() REJECTS when has_comma and digit_length <cmp> n *)\nDefinition last_group_reject_cmp : cmp := %s.\nDefinition last_group_len : N := %s.\n" % (CMP[m.group(1)], F.coq_int(int(m.group(2)))))
-    if not re.search(r"let\s+ret\s*=\s*self\.subtotal\.add\(&mut\s+self\.tmp\)\s*&&\s*self\.total\.add\(&mut\s+self\.subtotal\)\s*;\s*if\s+self\.has_hanging_point", b):
-        raise F.FactError("done(): accumulation / hanging point order not recognised")
+    if not re.search(r"let\s+ret\s*=\s*self\.subtotal\.add\(&mut\s+self\.tmp\)\s*&&\s*self\.total\.add\(&mut\s+self\.subtotal\)\s*;\s*if\s+!ret\s*\{\s*return\s+false;\s*\}\s*if\s+self\.has_hanging_point", b):
+        raise F.FactError("done(): accumulation, early return on a malformed number, hanging point order not recognised")
     # --- StringNumber
     b = F.fn_body(s, "new", SN)
     m = re.search(r"scale\s*:\s*(\d+)\s*,\s*point\s*:\s*(-?\d+)\s*,\s*is_all_zero\s*:\s*(true|false)", b)
